@@ -260,6 +260,9 @@ def run(ctx, pid):
                 pr = ctx.run([exe, pkind + "-free", ftrace, str(W), str(p["free_n"]), str(ctx.seed * 1000 + W), str(p["free_runs"])], timeout=900, env=env)
                 stats["free"] = json.loads(pr.stdout.strip().splitlines()[-1])
                 n_free += p["free_runs"]
+                if stats["free"].get("incomplete"):
+                    ctx.log("note: %d of %d free runs (%s) did not finish inside their wall-clock limit (inconclusive, not a verdict)"
+                            % (stats["free"]["incomplete"], p["free_runs"], tag))
                 with open(trace, "a") as out, open(ftrace) as inp:
                     out.write(inp.read())
             rows = vlib.read_ndjson(trace)
